@@ -77,3 +77,21 @@ func vh_C18_csrf_cookie() {
 	}
 	verifReach("end")
 }
+
+// two logins started at the same time: minting their CSRF state (OAuth state and OIDC nonce)
+// shares no mutable state, and the two logins get different states and nonces
+// verif: unwind=6 strlen=8 ideal race also=C05,C20
+func vh_C03_newcsrf_race() {
+	opts := &options.Cookie{Name: "_oauth2_proxy", Secret: "0123456789abcdef", Path: "/", CSRFExpire: 15 * time.Minute, Expire: 168 * time.Hour}
+	var a, b CSRF
+	var ea, eb error
+	verifThread(1, func() { a, ea = NewCSRF(opts, "") })
+	verifThread(2, func() { b, eb = NewCSRF(opts, "") })
+	verifRaceFree("C03.newcsrf.no-shared-mutable-state")
+	verifAssert("C03.newcsrf.created", ea == nil && eb == nil && a != nil && b != nil)
+	if ea == nil && eb == nil && a != nil && b != nil {
+		verifAssert("C03.newcsrf.distinct-states", a.HashOAuthState() != b.HashOAuthState())
+		verifAssert("C05.newcsrf.distinct-nonces", a.HashOIDCNonce() != b.HashOIDCNonce())
+	}
+	verifReach("end")
+}
